@@ -271,6 +271,16 @@ example : ¬ iter Sample.ordTies (fromList Sample.ordTies [0, 3]) = iter Sample.
 example : iter Sample.ordTotal (fromList Sample.ordTotal [0, 3]) = iter Sample.ordTotal (fromList Sample.ordTotal [3, 0]) :=
   (values_order_indep_pair_iff sample_ordTotal_lawful _ rfl (by decide) (by decide) (by decide)).mpr (by decide)
 
+/-- Audit item 5: `sortStable` transliterates `sort.SliceStable` only up to 20
+elements (one insertion-sort block).  For longer member lists nothing about Go's
+block merging is needed: if `less` is a strict order total between inequivalent
+members, ANY ascending permutation of the members — the output of any correct
+sort — is the model's `valuesSorted`. -/
+theorem values_sorted_unique (less : α → α → Bool) {s : SetImpl α} (h : Inv R s)
+    (ht : StrictTotalOn R less (values s)) {l' : List α} (hp : l'.Perm (values s))
+    (hs : l'.Pairwise (fun a b => less a b = true)) : l' = valuesSorted less s :=
+  sorted_perm_eq_sortStable less (ht.toList h.nodup) hp hs
+
 end SetSlice
 /-! ######################## end of SECTION «cty/set» ######################## -/
 
